@@ -688,6 +688,7 @@ pub fn gen_c18_lockstep(seed: u64) -> Plan {
 
 pub fn gen_plan(prop: &str, seed: u64, variant: u64) -> Plan {
     match prop {
+        "C03" if variant % 4 == 2 => gen_p_family(prop, seed, &PProfile { ttl_pct: 70, lookup_pct: 45, over_capacity_pct: 30, remove_pct: 8, ..PProfile::default() }),
         "C03" | "C04" => gen_ttl_family(prop, seed, variant % 4 == 3),
         "C05" => gen_ttl_family(prop, seed, variant % 2 == 1),
         "C09" => gen_ttl_family_c(prop, seed, variant % 5 == 4, true),
